@@ -407,8 +407,72 @@ def run(ctx, report):
         else:
             R4.violation('cond-const', 'rewrite:cond-const', 'a conditional on a constant no longer selects src2 for 0 and src1 otherwise', where(hlp, n))
 
+    # ---------------------------------------------------------------- D5 size-table lookups are guarded
+    R5 = report.rule('C05.D5', 'the simplifier indexes the width->integer-type table only with widths that have an integer type', floor=8)
+    size_table_rule(R5, hlp, [fn, hlp.func('merge_sliceto_slice')])
+
+
+def size_table_rule(R, hlp, fns):
+    """Every `tab_size_int[K]` of the simplifier: K must be the width of something known to be a constant (dominating isinstance(.., ExprInt) on the
+    value or on an operand of it), or be dominated by a membership test `K in tab_size_int` (directly, or through a name bound to that test), or range over
+    the table's own keys.  A bare expression width (slices have any width 1..64) raises KeyError."""
+    TABLE = 'tab_size_int'
+    for f in fns:
+        # names bound to a membership test
+        member_names = {}
+        for n in walk_no_nested(f):
+            if isinstance(n, ast.Assign) and len(n.targets) == 1 and isinstance(n.targets[0], ast.Name) and isinstance(n.value, ast.Compare) \
+                    and len(n.value.ops) == 1 and isinstance(n.value.ops[0], ast.In) and u(n.value.comparators[0]) == TABLE:
+                member_names[n.targets[0].id] = u(n.value.left)
+        popped = set()
+        for n in walk_no_nested(f):
+            if isinstance(n, ast.Assign) and isinstance(n.value, ast.Call) and u(n.value.func).endswith('.pop') and isinstance(n.targets[0], ast.Name):
+                w = parent(n)
+                while w is not None and not isinstance(w, ast.While):
+                    w = parent(w)
+                if w is not None and 'isinstance(args[-1], ExprInt)' in u(w.test) and 'isinstance(args[-2], ExprInt)' in u(w.test):
+                    popped.add(n.targets[0].id)
+        for n in walk_no_nested(f):
+            if not (isinstance(n, ast.Subscript) and isinstance(n.value, ast.Name) and n.value.id == TABLE and isinstance(n.ctx, ast.Load)):
+                continue
+            k = n.slice
+            ktxt = u(k)
+            inst = '%s:%s[%s]' % (f.name, TABLE, ktxt)
+            # dominating tests: tests of enclosing If (node in body) and While
+            tests = []
+            c, p_ = n, parent(n)
+            while p_ is not None and p_ is not f:
+                if isinstance(p_, ast.If) and any(c is st for st in p_.body):
+                    tests.append(u(p_.test))
+                if isinstance(p_, ast.While) and any(c is st for st in p_.body):
+                    tests.append(u(p_.test))
+                c, p_ = p_, parent(p_)
+            dom = ' and '.join(tests)
+            why = None
+            if ('%s in %s' % (ktxt, TABLE)) in dom:
+                why = 'dominated by the membership test'
+            elif any(nm in [x.id for t in tests for x in ast.walk(ast.parse(t, mode='eval')) if isinstance(x, ast.Name)] and member_names[nm] == ktxt for nm in member_names):
+                why = 'dominated by a name bound to the membership test'
+            elif isinstance(k, ast.Call) and u(k.func) in ('min', 'max') and TABLE in ktxt and any(isinstance(x, ast.comprehension) and u(x.iter) == TABLE for x in ast.walk(k)):
+                why = 'ranges over the keys of the table'
+            elif isinstance(k, ast.Call) and isinstance(k.func, ast.Attribute) and k.func.attr == 'get_size' and not k.args:
+                v = u(k.func.value)
+                if v in popped:
+                    why = '%s is a constant popped under isinstance(.., ExprInt)' % v
+                elif 'isinstance(%s, ExprInt)' % v in dom:
+                    why = '%s is a constant' % v
+                elif ('isinstance(%s.args[' % v) in dom and ', ExprInt)' in dom:
+                    why = 'an operand of %s is a constant (operands of one operator have the same width)' % v
+            if why:
+                R.ok(inst, sample='%s: %s' % (inst, why))
+            else:
+                R.violation(inst, 'size-table:%s:%s' % (f.name, ktxt), '%s is indexed with %s, the width of an arbitrary expression: KeyError for widths without an integer type '
+                            '(slices of 4, 24, 31.. bits)' % (TABLE, ktxt), where(hlp, n), witness="expr_simp(x[0:4] ^ x[0:4]) raises KeyError(4)")
+
 
 MUTANTS = [
+    ('cancel-odd-width', 'miasmx/expression/expression_helper.py', "                if op == '^' and can_zero and args[i] == args[j]:", "                if op == '^' and args[i] == args[j]:", 'C05.D5'),
+    ('merge-type-unguarded', 'miasmx/expression/expression_helper.py', "        out_type = tab_size_int.get(max_size)\n        if out_type is None:", "        out_type = tab_size_int[max_size]\n        if out_type is None:", 'C05.D5'),
     ('fold-shift-width', 'miasmx/expression/expression_helper.py', "                if op in op_assoc and i1.get_size() != i2.get_size():", "                if i1.get_size() != i2.get_size():", 'C05.D4'),
     ('slice-mem-noseg', 'miasmx/expression/expression_helper.py', "e = ExprMem(e.arg.arg, size = e.stop, segm = e.arg.segm)", "e = ExprMem(e.arg.arg, size = e.stop)", 'C05.D4'),
     ('shift-fold-unbounded', 'miasmx/expression/expression_helper.py', "                elif op in ['>>', '<<'] and i2.arg >= i1.get_size():\n                    # every bit is shifted out (do not build the huge\n                    # intermediate integer)\n                    o = 0\n", "", 'C05.D4'),
